@@ -746,7 +746,7 @@ def do_ins(ctx, B, rng, N, kind):
         n = rng.choice([None, 5])
         us, _ = gen_rej_uniforms(rng, T)
     else:
-        n = rng.choice([None, rng.randrange(1, 30)])
+        n = rng.choice([None, None, rng.randrange(1, 30), rng.randrange(1, 30), 0])
         us, _ = gen_mult_uniforms(rng, T, N if n is None else n)
         if us is None:
             return
@@ -806,17 +806,65 @@ class InsBatch(Batch):
         self.ins = []
 
 
-def do_ins_zero(ctx):
-    """n = 0 through the INS wrapper (the plain function returns an empty array)"""
+INS_KEY = "ImportanceNestedSampler.draw_posterior_samples"
+
+
+def eval_ins_case(c):
+    """one concrete INS-wrapper case (weights of the state that must be used, uniforms, method, n) on the real
+    code; returns (failure text or None, canonical output, model line)"""
+    ws = [tuple(me) for me in c["w"]]
+    N = len(ws)
+    st = ins_state(ws)
+    other = ins_state([(1, 0)] * N)          # a state that must NOT be used
+    use_final, has_final = bool(c.get("use_final", True)), bool(c.get("has_final", False))
+    if use_final and has_final:
+        cur, fin, used = other, st, st
+    else:
+        cur, fin, used = st, (other if has_final else None), st
+    with np.errstate(all="ignore"):
+        lw_seen = np.array(used[1].log_posterior_weights, dtype=float)
+    T = Table(ws, lw_seen=lw_seen)
+    us = [float(u) for u in c["u"]]
+    method, n = c["method"], c["n"]
+    line = (f"rs draw {method} {'none' if n is None else n} [{','.join(map(str, ids_of(N)))}] {fmt_w(ws)} {fmt_u(us)}")
+    if method == "rejection_sampling":
+        if len(us) < N or not all(T.rej_admissible(i, us[i]) for i in range(N)):
+            return None, None, None
+    elif T.S == 0 or not all(T.mult_admissible(u) for u in us):
+        return None, None, None
+    canon, s = run_draw_ins(method, n, use_final, cur, fin, us)
+    if s is None:
+        return f"raised {canon} on a valid input", canon, line
+    idv = [int(v) for v in s["id"]]
+    if s.dtype != used[0].dtype or any(v < 1000 or v >= 1000 + N for v in idv):
+        return "posterior samples are not elements of the nested samples", canon, line
+    if method != "rejection_sampling":
+        with np.errstate(all="ignore"):
+            want = n if n is not None else int(float(used[1].effective_n_posterior_samples))
+        if len(idv) != want:
+            return f"{len(idv)} samples returned, {want} requested", canon, line
+    f = oracle_draw(T, method, (None if method == "rejection_sampling" else len(idv)), used[0], us, s,
+                    np.array([v - 1000 for v in idv], dtype=int))
+    return f, canon, line
+
+
+def run_ins_case(ctx, B, c, kind):
+    f, canon, line = eval_ins_case(c)
+    if canon is None:
+        return
+    if f:
+        ctx.oracle_fail(INS_KEY, f, c)
+    B.add_ins(line, canon, c)
+    ctx.case((kind, repr(c)), len(c["w"]) >= 2, kind=kind)
+
+
+def do_ins_zero(ctx, B):
+    """n = 0 through the INS wrapper: zero samples must come back (as from the plain function), for every branch"""
     ws = [(1, 0), (1, -1), (3, -2)]
-    cur = ins_state(ws)
-    canon, s = run_draw_ins("multinomial_resampling", 0, True, cur, None, [])
-    case = case_of("ins", "multinomial_resampling", 0, ws, [], use_final=True, has_final=False)
-    if s is None or len(s) != 0:
-        ctx.oracle_fail("ImportanceNestedSampler.draw_posterior_samples:n=0",
-                        f"requesting n=0 multinomial draws gives {canon} instead of an empty array "
-                        "(draw_posterior_samples itself returns 0 samples)", case)
-    ctx.case(("ins-zero",), False, kind="ins/n=0")
+    for method in METHODS_MULT:
+        for use_final, has_final in [(True, False), (True, True), (False, True)]:
+            c = case_of("ins", method, 0, ws, [], use_final=use_final, has_final=has_final)
+            run_ins_case(ctx, B, c, "ins/n=0")
 
 
 def do_nlive(ctx, rng):
@@ -935,6 +983,11 @@ def do_corpus(ctx, B):
     d = VERIF / "corpus" / "C16"
     for path in sorted(d.glob("*.json")) if d.exists() else []:
         for c in json.loads(path.read_text())["cases"]:
+            if c.get("layer") == "ins":
+                run_ins_case(ctx, B, case_of("ins", c["method"], c["n"], [tuple(me) for me in c["w"]], c["u"],
+                                             use_final=c.get("use_final", True), has_final=c.get("has_final", False)),
+                             "corpus/ins")
+                continue
             ws = [tuple(me) for me in c["w"]]
             T = Table(ws)
             us = [float(u) for u in c["u"]]
@@ -1118,7 +1171,7 @@ def correspond(ctx):
     # 4. INS wrapper, nlive path, malformed, frequencies
     for k in range(ctx.scale(150, 1500)):
         do_ins(ctx, B, rng, size_of(rng, ctx), rng.choice(WEIGHT_KINDS))
-    do_ins_zero(ctx)
+    do_ins_zero(ctx, B)
     for k in range(ctx.scale(30, 300)):
         do_nlive(ctx, rng)
     do_malformed(ctx, B, rng)
@@ -1164,5 +1217,9 @@ def replay(ctx, obj):
         if f:
             ctx.oracle_fail(obj["key"], f, c)
         ctx.case(repr(c)[:200], True, c)
+    elif layer == "ins" and "w" in c:
+        B = InsBatch(ctx)
+        run_ins_case(ctx, B, c, "replay/ins")
+        B.flush()
     else:
         correspond(ctx)
